@@ -964,6 +964,15 @@ class Crystal(object):
                 if u != 0:
                     super[1, 2] = -int(u)
                     modified = True
+                else:
+                    # pairwise reduced; the longest vector may still be shortened by adding BOTH others (e.g. a hexagonal cell
+                    # left with a3 = c - a1 - a2, where every pairwise ratio is exactly -1/2 and rounds to 0)
+                    for x, y in ((1, 1), (1, -1), (-1, 1), (-1, -1)):
+                        if asq[2, 2] + 2 * (x * asq[0, 2] + y * asq[1, 2] + x * y * asq[0, 1]) + asq[0, 0] + asq[1, 1] \
+                                < asq[2, 2] * (1 - 1e-8):
+                            super[0, 2], super[1, 2] = x, y
+                            modified = True
+                            break
 
         if not modified:
             return
